@@ -2554,7 +2554,12 @@ func ruleGRDcascadeAll(w *World, r *Report) {
 	}
 	root := w.SSAFunc(fi.Obj)
 	n := 0
-	for _, f := range append([]*ssa.Function{root}, closuresOf(root)...) {
+	scope := append([]*ssa.Function{root}, closuresOf(root)...)
+	helpers := w.extractedHelpers(root) // the cascade as a method of its own, called by VDelete only
+	for _, h := range helpers {
+		scope = append(append(scope, h), closuresOf(h)...)
+	}
+	for _, f := range scope {
 		for _, in := range findInstrs(f, callsTo(unlink)) {
 			n++
 			ok, wit, h := everyIterationPasses(f, in, nil)
@@ -2576,8 +2581,28 @@ func ruleGRDcascadeAll(w *World, r *Report) {
 			c, ok := in.(*ssa.Call)
 			return ok && c.Call.IsInvoke() && c.Call.Method.Name() == "Delete"
 		}
-		if len(findInstrs(root, callsTo(gar))) > 0 && len(findInstrs(root, isDel)) > 0 {
-			ok, wit := mustPrecede(root, isDel, callsTo(gar), nil)
+		// a look-up made by an extracted helper happens where VDelete calls the helper
+		looksUp := callsTo(gar)
+		lookHelpers := map[*ssa.Function]bool{}
+		for _, h := range helpers {
+			for _, hf := range append([]*ssa.Function{h}, closuresOf(h)...) {
+				if len(findInstrs(hf, callsTo(gar))) > 0 {
+					lookHelpers[h] = true
+				}
+			}
+		}
+		if len(lookHelpers) > 0 {
+			direct := looksUp
+			looksUp = func(in ssa.Instruction) bool {
+				if direct(in) {
+					return true
+				}
+				c, ok := in.(*ssa.Call)
+				return ok && lookHelpers[c.Call.StaticCallee()]
+			}
+		}
+		if len(findInstrs(root, looksUp)) > 0 && len(findInstrs(root, isDel)) > 0 {
+			ok, wit := mustPrecede(root, isDel, looksUp, nil)
 			r.Cond(ok, "GRD-cascade-all", "Engine.VDelete:edges-looked-up-after-the-delete", w.Pos(fi.Decl.Pos()), "every GetAllRelations of the cascade lies behind the index delete", "VDelete reads the node's edge lists before the node is deleted from the index: a link that is applied after that look-up but before the delete takes effect is never unlinked — the deleted node stays a live neighbour, source and target, and appears on paths", w.witness(wit)...)
 		}
 	}
@@ -4089,13 +4114,24 @@ func ruleLCK10(w *World, r *Report) {
 			continue
 		}
 		fn := w.SSAFunc(fi.Obj)
-		locks := findInstrs(fn, isShardLock("Lock"))
-		ok := len(locks) > 0
+		nLocks := 0
+		ok := true
 		var wit []ssa.Instruction
-		for _, l := range locks {
-			if f, wt := (pathQuery{fn: fn, target: callsTo(addMeta), avoid: callsTo(getID)}).find(posOf(l)); f {
-				ok, wit = false, wt
+		// (the per-node critical section may be a function literal of the operation)
+		for _, f := range append([]*ssa.Function{fn}, closuresOf(fn)...) {
+			locks := findInstrs(f, isShardLock("Lock"))
+			nLocks += len(locks)
+			if len(locks) == 0 && len(findInstrs(f, callsTo(addMeta))) > 0 {
+				ok = false // a write-back in a function that does not take the lock itself
 			}
+			for _, l := range locks {
+				if fd, wt := (pathQuery{fn: f, target: callsTo(addMeta), avoid: callsTo(getID)}).find(posOf(l)); fd {
+					ok, wit = false, wt
+				}
+			}
+		}
+		if nLocks == 0 {
+			ok = false
 		}
 		r.Cond(ok, "LCK-10", name+":node-looked-up-again-under-the-lock", w.Pos(fi.Decl.Pos()), "between taking the lock and the write-back the node is looked up again", name+" writes the merged metadata back without looking the node up again after it has the metadata lock: a delete that finished in between (it holds the same lock) is overwritten by the write-back — the deleted node gets its metadata and index entries back", w.witness(wit)...)
 	}
@@ -4110,29 +4146,26 @@ func ruleLCK10(w *World, r *Report) {
 func ruleCDC15(w *World, r *Report) {
 	r.Doc("CDC-15", "DB.AddEdge changes the edge lists only after a test that no version of the edge was created at the record's timestamp, and the soft branch of DB.RemoveEdge ends the active version only when no version already ends at the record's timestamp (both views): a GLINK/GUNLINK record replayed on top of a snapshot or compacted log that already contains its effect is a no-op", 3)
 	// a comparison of the named GraphEdge/ReverseEdge field with a parameter, in fn or in a pkg/core helper it calls
-	cmpField := func(fn *ssa.Function, field string) []*ssa.BinOp {
+	cmpField := func(top *ssa.Function, field string) []*ssa.BinOp {
 		var out []*ssa.BinOp
-		for _, b := range fn.Blocks {
-			for _, in := range b.Instrs {
-				bo, ok := in.(*ssa.BinOp)
-				if !ok || bo.Op != token.EQL && bo.Op != token.NEQ {
-					continue
-				}
-				for _, pair := range [][2]ssa.Value{{bo.X, bo.Y}, {bo.Y, bo.X}} {
-					ld, ok := pair[0].(*ssa.UnOp)
-					if !ok || ld.Op != token.MUL {
+		// (the comparison may be the predicate of a slices.ContainsFunc / IndexFunc: a function literal of top, which sees
+		// top's parameters as captured variables and its element as a struct value)
+		for _, fn := range append([]*ssa.Function{top}, closuresOf(top)...) {
+			for _, b := range fn.Blocks {
+				for _, in := range b.Instrs {
+					bo, ok := in.(*ssa.BinOp)
+					if !ok || bo.Op != token.EQL && bo.Op != token.NEQ {
 						continue
 					}
-					fa, ok := ld.X.(*ssa.FieldAddr)
-					if !ok {
-						continue
-					}
-					if _, f := structFieldName(fa.X.Type(), fa.Field); f != field {
-						continue
-					}
-					for _, rt := range append(valueRoots(pair[1]), pair[1]) {
-						if _, isP := rt.(*ssa.Parameter); isP {
-							out = append(out, bo)
+					for _, pair := range [][2]ssa.Value{{bo.X, bo.Y}, {bo.Y, bo.X}} {
+						f, isF := recordField(pair[0])
+						if !isF || f != field {
+							continue
+						}
+						for _, rt := range append(valueRoots(pair[1]), pair[1]) {
+							if capturedParam(rt) != nil {
+								out = append(out, bo)
+							}
 						}
 					}
 				}
@@ -4201,6 +4234,9 @@ func ruleCDC15(w *World, r *Report) {
 	if fi := w.Func("pkg/core", "DB.RemoveEdge"); fi != nil {
 		fn := w.SSAFunc(fi.Obj)
 		cs := cmpField(fn, "DeletedAt")
+		for _, h := range w.extractedHelpers(fn) { // the soft unlink of a view moved into a function of its own
+			cs = append(cs, cmpField(h, "DeletedAt")...)
+		}
 		views := map[string]bool{}
 		for _, c := range cs {
 			for _, side := range []ssa.Value{c.X, c.Y} {
@@ -4230,12 +4266,9 @@ func ruleCDC15(w *World, r *Report) {
 // GRD-logarg: the decay calculators never hand a possibly negative count to a logarithm.
 // ---------------------------------------------------------------------------------------------------------------
 func ruleGRDlogarg(w *World, r *Report) {
-	r.Doc("GRD-logarg", "in pkg/engine/search_utils.go every integer that is converted and passed to math.Log1p / math.Log / math.Sqrt has a lower bound of 0 on every path (a clamp or an early return): Log1p of a count below -1 is NaN, NaN passes every `<= 0` fallback test, and the decay factor — which must lie in [0,1] — and the score become NaN", 1)
+	r.Doc("GRD-logarg", "in pkg/engine (the decay of the search path and the stability score of the belief assessment) every integer that is converted and passed to math.Log1p / math.Log / math.Sqrt has a lower bound of 0 on every path (a clamp or an early return): Log1p of a count below -1 is NaN, NaN passes every `<= 0` fallback test, and the decay factor — which must lie in [0,1] — and the score become NaN", 2)
 	n := 0
 	for _, fn := range w.pkgSSAFuncs("pkg/engine") {
-		if fn.Pos().IsValid() && !strings.HasSuffix(w.Fset.Position(fn.Pos()).Filename, "search_utils.go") {
-			continue
-		}
 		k := 0
 		for _, b := range fn.Blocks {
 			for _, in := range b.Instrs {
@@ -4259,7 +4292,7 @@ func ruleGRDlogarg(w *World, r *Report) {
 		}
 	}
 	if n == 0 {
-		r.Und("GRD-logarg", "sites", "", "no logarithm of an integer count found in search_utils.go (analysis lost its anchors)")
+		r.Und("GRD-logarg", "sites", "", "no logarithm of an integer count found in pkg/engine (analysis lost its anchors)")
 	}
 }
 
@@ -4404,4 +4437,30 @@ func ruleGRDpathExhausted(w *World, r *Report) {
 		}
 	}
 	r.Cond(exits > 0, "GRD-path-exhausted", "Engine.FindPath:round-loop:ends-with-empty-frontiers", w.Pos(header.Instrs[0].Pos()), "an empty-frontier test inside the loop leaves it", "the round loop of FindPath runs up to max_depth rounds whether or not any node is left to expand, and max_depth comes from the request unchecked: POST /graph/actions/find-path with max_depth around 9e18 between two unconnected nodes keeps a core spinning through empty rounds — the call never returns")
+}
+
+// capturedParam: v is a parameter — directly, as the load of the cell a captured parameter lives in (in the function
+// that declares it), or as the load of the free variable bound to that cell (in a function literal). Returns it.
+func capturedParam(v ssa.Value) *ssa.Parameter {
+	if p, ok := v.(*ssa.Parameter); ok {
+		return p
+	}
+	ld, ok := v.(*ssa.UnOp)
+	if !ok || ld.Op != token.MUL {
+		return nil
+	}
+	cell := ld.X
+	if fv, ok := cell.(*ssa.FreeVar); ok {
+		cell = freeVarBinding(fv)
+	}
+	al, ok := cell.(*ssa.Alloc)
+	if !ok {
+		return nil
+	}
+	st := cellStores(al)
+	if len(st) != 1 {
+		return nil
+	}
+	p, _ := st[0].Val.(*ssa.Parameter)
+	return p
 }
